@@ -69,6 +69,10 @@ func init() {
 			c = -1.5
 		case "2":
 			c = 0
+		case "3": // negative, however small, is negative
+			c = -5e-11
+		case "4":
+			c = -math.SmallestNonzeroFloat64
 		}
 		return withTimeout(20*time.Second, func() string {
 			h, v, err := transform.FitClearanceAroundExtendedSpatialID(a[0], c)
@@ -103,6 +107,9 @@ func init() {
 			}
 			if zeroAnyZoom {
 				neg = "2"
+			}
+			if rng.Intn(12) == 0 {
+				neg = []string{"3", "4"}[rng.Intn(2)]
 			}
 			do("fit", id, neg)
 		}
@@ -194,7 +201,7 @@ func init() {
 		args := []string{fbits(lon), fbits(lat), fbits(alt), fbits(lon2), fbits(lat2), fbits(alt2), fbits(radius), s64(h), s64(v), skips}
 		switch rng.Intn(40) {
 		case 0:
-			args[6] = fbits(-1 - rng.Float64())
+			args[6] = fbits([]float64{-1 - rng.Float64(), -5e-11, -1e-12, -math.SmallestNonzeroFloat64}[rng.Intn(4)])
 		case 1:
 			args[7] = "36"
 		case 2:
